@@ -37,6 +37,17 @@ class Sym:
         return f"<{self.name}>"
 
 
+class EnumSym(Sym):
+    """Member of an enum-like package class: Sym('<Class>.<member>') that knows both."""
+
+    __slots__ = ("cls", "member")
+
+    def __init__(self, cls, member: str):
+        super().__init__(f"{cls.name}.{member}")
+        self.cls = cls
+        self.member = member
+
+
 class Unknown:
     """A value the abstract domain knows nothing about; its truth is split."""
 
@@ -60,6 +71,12 @@ class Obj:
 
     def __eq__(self, o):
         return self is o
+
+
+@dataclass
+class SuperProxy:
+    obj: Any
+    after: Any  # Class whose MRO successors are searched
 
 
 @dataclass
@@ -239,6 +256,22 @@ class Interp:
             if attr == "__name__":
                 return base.name
             raise Undecided(f"class attribute {base.name}.{attr}")
+        if isinstance(base, SuperProxy):
+            mro = base.obj.cls.mro() if isinstance(base.obj, Obj) else []
+            if base.after in mro:
+                for k in mro[mro.index(base.after) + 1 :]:
+                    if attr in k.methods:
+                        return BoundMethod(k.methods[attr], base.obj)
+            return Sym(f"super.{attr}")
+        if isinstance(base, EnumSym):
+            if attr in ("name", "_name_"):
+                return base.member
+            m = base.cls.lookup(attr)
+            if m is not None:
+                if m.is_property:
+                    return self.call_func(m, [], {}, node, self_obj=base)
+                return BoundMethod(m, base)
+            return Sym(f"{base.name}.{attr}")
         if isinstance(base, Sym):
             if base.name.startswith("module:"):
                 r = self.prog.resolve_import(base.name[7:], attr)
@@ -247,6 +280,14 @@ class Interp:
             return Sym(f"{base.name}.{attr}")
         if isinstance(base, dict) and attr in ("keys", "values", "items", "get"):
             return Sym(f"dictmethod:{attr}"), base  # handled in call
+        if isinstance(base, list) and attr in ("append", "extend", "insert", "pop", "remove", "clear", "index", "count", "copy", "reverse"):
+            return _PyMethod(base, attr)
+        if isinstance(base, dict) and attr in ("update", "setdefault", "pop", "copy", "clear"):
+            return _PyMethod(base, attr)
+        if isinstance(base, set) and attr in ("add", "discard", "remove", "update", "copy"):
+            return _PyMethod(base, attr)
+        if isinstance(base, tuple) and attr in ("index", "count"):
+            return _PyMethod(base, attr)
         return self.attr_hook(base, attr, node)
 
     def attr_hook(self, base, attr, node):
@@ -254,7 +295,7 @@ class Interp:
 
     def class_member(self, cls: Class, attr: str, node):
         """Enum-like member access Class.MEMBER -> symbol."""
-        return Sym(f"{cls.name}.{attr}")
+        return EnumSym(cls, attr)
 
     def external_call(self, name: str, args: list, kwargs: dict, node):
         return Unknown(f"{name}(...)")
@@ -638,6 +679,10 @@ class Interp:
                 return base[k]
             if is_concrete(idx):
                 raise RaiseSignal("KeyError", e)
+        if isinstance(base, Obj):
+            gi = base.cls.lookup("__getitem__")
+            if gi is not None:
+                return self.call_func(gi, [idx], {}, e, self_obj=base)
         if isinstance(base, Class) and base.lookup("__getitem__") is None:
             # Enum lookup by name: Cls[name]
             if isinstance(idx, str):
@@ -736,6 +781,8 @@ class Interp:
             if isinstance(kk, Class):
                 if isinstance(v, Obj):
                     res = res or v.cls.is_subclass_of(kk)
+                elif isinstance(v, EnumSym):
+                    res = res or v.cls.is_subclass_of(kk)
                 elif isinstance(v, (Unknown,)):
                     return self.isinstance_hook(v, k, node)
                 elif is_concrete(v) and not isinstance(v, Sym):
@@ -761,6 +808,20 @@ class Interp:
         return res
 
     def apply(self, fv, args, kwargs, node):
+        if isinstance(fv, _PyMethod):
+            if kwargs:
+                raise Undecided("keyword arguments to container method")
+            a = [(_hashable(x) if isinstance(fv.obj, (dict, set)) and fv.name in ("setdefault", "pop", "add", "discard", "remove") and i == 0 else x) for i, x in enumerate(args)]
+            if isinstance(fv.obj, list) and fv.name == "extend" and a and isinstance(a[0], _DictView):
+                a = [a[0].materialise()]
+            if fv.name in ("index", "remove", "count") and isinstance(fv.obj, (list, tuple)):
+                # identity/equality on abstract values: only symbols and concrete values are comparable
+                if not all(is_concrete(x) for x in list(fv.obj) + a):
+                    raise Undecided("search in a list of abstract values")
+            try:
+                return getattr(fv.obj, fv.name)(*a)
+            except (ValueError, KeyError, IndexError) as e:
+                raise RaiseSignal(type(e).__name__, node)
         if isinstance(fv, _DictMethod):
             d = fv.d
             if fv.name == "keys":
@@ -785,6 +846,8 @@ class Interp:
             if m is not None:
                 return self.call_func(m, args, kwargs, node, self_obj=fv)
         if isinstance(fv, Sym):
+            if fv.name.startswith("super."):
+                return None  # method of an external base class (object.__init__ ...)
             if fv.name.startswith("builtin:"):
                 return self.call_builtin(fv.name[8:], args, kwargs, node)
             nm = fv.name[4:] if fv.name.startswith("ext:") else fv.name
@@ -938,6 +1001,8 @@ class Interp:
                 return sum(args[0])
             if name == "print":
                 return None
+            if name == "super" and not args and self.func.cls is not None and self.func.self_name in self.env:
+                return SuperProxy(self.env[self.func.self_name], self.func.cls)
             if name == "setattr" and len(args) == 3 and isinstance(args[0], Obj):
                 if isinstance(args[1], str):
                     args[0].attrs[args[1]] = args[2]
@@ -963,6 +1028,12 @@ _BUILTIN_SYMS = {
     "KeyError", "AssertionError", "RuntimeError", "TypeError", "id", "repr", "iter", "next", "map", "filter", "frozenset",
     "AttributeError", "UserWarning", "DeprecationWarning", "__name__", "__file__", "callable", "divmod",
 }
+
+
+class _PyMethod:
+    def __init__(self, obj, name):
+        self.obj = obj
+        self.name = name
 
 
 class _DictMethod:
